@@ -318,31 +318,33 @@ def c19(a):
                     c.violation("the real concatenated database diverges from ConcatCache.tla on a TLC-generated history "
                                 "(returned version / path taken)", {"event": {"history": full, "ttl": ttl, "db": "concat",
                                                                               "mismatches": e["mismatches"]}})
-    # Engine A: concurrent executions validated against the model
-    s = run_driver(binary, "c19stress", os.path.join(wd, "stress"), a.tier, a.seed)
-    c.add_summary(s)
-    for fpath in s["files"]:
-        for line in open(fpath):
-            e = json.loads(line)
-            if e["panics"]:
-                c.violation("panic in a concurrent lookup/reset", {"event": e})
-            if e["cache_unsorted"]:
-                c.violation("the zone cache lost its sort order / has duplicates", {"event": e})
-            r = tlc_accept("Trace_Cache.tla", "Trace_Cache.cfg", e["trace"], os.path.join(wd, "acc"))
-            c.states += r["distinct"]
-            c.transitions += r["generated"]
-            if r["accepted"]:
-                c.traces += 1
-            else:
-                ev = None
-                if r["furthest"]:
-                    with open(e["trace"]) as tf:
-                        lines = tf.readlines()
-                    ev = {"rejected_at_line": r["furthest"], "event": json.loads(lines[r["furthest"] - 1]) if r["furthest"] <= len(lines) else None,
-                          "context": [json.loads(x) for x in lines[max(0, r["furthest"] - 12):r["furthest"]]]}
-                c.violation("a recorded concurrent execution is not a behaviour of TzdbCache.tla"
-                            + (f" (model invariant {r['inv_violated']} broken)" if r["inv_violated"] else ""),
-                            {"event": ev, "run": e["run"]})
+    # Engine A: concurrent executions validated against the models (zoneinfo directory, then concatenated file)
+    for (dbkind, tspec, model, extra) in (("zoneinfo", "Trace_Cache", "TzdbCache.tla", []),
+                                          ("concatenated", "Trace_ConcatCache", "ConcatCache.tla", ["--db", "concat", "--stem", "c19stress-concat"])):
+        s = run_driver(binary, "c19stress", os.path.join(wd, "stress-" + dbkind), a.tier, a.seed, extra)
+        c.add_summary(s)
+        for fpath in s["files"]:
+            for line in open(fpath):
+                e = json.loads(line)
+                if e["panics"]:
+                    c.violation(f"panic in a concurrent lookup/reset ({dbkind} database)", {"event": e})
+                if e["cache_unsorted"]:
+                    c.violation(f"the zone cache lost its sort order / has duplicates ({dbkind} database)", {"event": e})
+                r = tlc_accept(tspec + ".tla", tspec + ".cfg", e["trace"], os.path.join(wd, "acc"))
+                c.states += r["distinct"]
+                c.transitions += r["generated"]
+                if r["accepted"]:
+                    c.traces += 1
+                else:
+                    ev = None
+                    if r["furthest"]:
+                        with open(e["trace"]) as tf:
+                            lines = tf.readlines()
+                        ev = {"rejected_at_line": r["furthest"], "event": json.loads(lines[r["furthest"] - 1]) if r["furthest"] <= len(lines) else None,
+                              "context": [json.loads(x) for x in lines[max(0, r["furthest"] - 12):r["furthest"]]]}
+                    c.violation(f"a recorded concurrent execution is not a behaviour of {model}"
+                                + (f" (model invariant {r['inv_violated']} broken)" if r["inv_violated"] else ""),
+                                {"event": ev, "run": e["run"], "db": dbkind})
     c.rule = ("Engine C: TzdbCache.tla (one action per critical section of zoneinfo::Database::get/reset, environment "
               "file replace/remove/add, clock ticks) model-checked exhaustively for 2 threads x 2 names (thorough: 3 threads) "
               "against CacheCoherent, ReturnOk, FreshAfterExpiry, LockInv, and for progress under fairness. Engine B: TLC "
@@ -351,7 +353,11 @@ def c19(a):
               "whose offset encodes (name, version), comparing every returned version and the path taken (hook events). "
               "Engine A: 4 threads + a writer thread run against one database; the hook events (sequence numbers taken "
               "under jiff's locks) form a trace that must be a behaviour of the model (Trace_Cache.tla, file operations "
-              "taking effect anywhere between their markers). Non-trivial = histories with expiry / concurrent runs.")
+              "taking effect anywhere between their markers). The same three engines run for the concatenated (Android "
+              "tzdata) database: ConcatCache.tla (one file and one mtime for all zones, no name index) model-checked, "
+              "ConcatCacheSim histories (whole-file rewrites, file removal, ticks) replayed on "
+              "TimeZoneDatabase::from_concatenated_path, concurrent runs validated by Trace_ConcatCache.tla. "
+              "Non-trivial = histories with expiry / concurrent runs.")
     c.assumptions = TRUSTED + ["hooks in /repo under cfg(jiff_verif): mock monotonic clock, ttl setter, critical-section events",
                                "the harness's TZif writer for fixed-offset files"]
     return c.finish()
